@@ -17,6 +17,30 @@ CLAIMED = {
         engine="HashMB", ref="4.1, 5 C01"),
 }
 
+CLAIMED["C06"] = dict(
+    text="Proof (Lean 4) over the executable HashMB model, for every history of valid or rejected calls and every "
+         "lane count / single-buffer threshold: per-call conservation of in-flight contexts (nothing lost, invented or "
+         "handed back twice; handed-back contexts are out of every lane and not PROCESSING), in flight <=> in a lane, "
+         "occupied lanes <= lanes and duplicate-free, flush returns none iff nothing in flight, complete iff LAST, idle "
+         "contexts accept UPDATE/LAST. Tie: correspondence of all 28 family managers + public API with the model, and "
+         "model-independent monitors in the harness (exactly-once accounting, status bits, user_data, caller buffers, drain).",
+    note="Trusted: Lean kernel + standard axioms; harness (differential). Open: proof that the model's loop fuel "
+         "always suffices (termination of resubmit/flush) - today an out-of-fuel would show as a correspondence break. "
+         "user_data / caller buffers are not model state: covered by harness monitors only.",
+    technique="Lean 4 invariant proof over hand-written model + differential correspondence + runtime monitors",
+    engine="HashMB", ref="4.1, 5 C06")
+CLAIMED["C11"] = dict(
+    text="Proof (Lean 4): a rejected submit returns the context with the matching code and changes nothing but its "
+         "error field (lanes, free stack, other contexts, abstract streams identical); histories with rejected calls "
+         "injected anywhere keep the invariant under which C01/C06 hold; wrapper return code: 0 for every accepted "
+         "submit (no poisoning), documented code for rejected ones; the pre-fix wrapper is refuted by a kernel-checked "
+         "witness (defect D3, fixed in /repo 6fe72f6). Tie: correspondence with 30% rejected submits on all families, "
+         "byte-compare of manager and all contexts around every rejected call, public-API return-code monitor.",
+    note="Trusted: Lean kernel + standard axioms; harness. The wrapper's return-code mapping is hand-modelled "
+         "(Props/C11.lean isalCode) and tied by the public-API monitor on the dispatched family only.",
+    technique="Lean 4 proof over hand-written model + differential correspondence + byte-compare monitor",
+    engine="HashMB", ref="5 C11")
+
 REASON_TODO = "check not built yet in this session (work in progress, see DESIGN.md status section)"
 
 props = [json.loads(l) for l in open(os.path.join(V, "properties.jsonl"))]
